@@ -49,15 +49,17 @@ const (
 	tplMulti
 	tplSelSend
 	tplSelSendX
+	tplGoLit
 	nTpl
 )
 
-var c08TplName = []string{"pipeline", "fanout", "mutex", "prodcons", "selmain", "selpriv", "closure", "hostcall", "multi", "selsend", "selsendx"}
-var c08TplCoq = []string{"TPipeline", "TFanout", "TMutex", "TProdCons", "TSelMain", "TSelPriv", "TClosure", "THostCall", "TMulti", "TSelSend", "TSelSendX"}
+var c08TplName = []string{"pipeline", "fanout", "mutex", "prodcons", "selmain", "selpriv", "closure", "hostcall", "multi", "selsend", "selsendx", "golit"}
+var c08TplCoq = []string{"TPipeline", "TFanout", "TMutex", "TProdCons", "TSelMain", "TSelPriv", "TClosure", "THostCall", "TMulti", "TSelSend", "TSelSendX", "TGoLit"}
 
 const (
 	regionSelect   = "select-shared-cases"
 	regionSendExpr = "select-send-expr"
+	regionGetFunc  = "getfunc-writeback"
 )
 
 type c08params struct {
@@ -110,6 +112,7 @@ func main() {
 import (
 	"fmt"
 	"sort"
+	"strconv"
 	"sync"
 )
 
@@ -120,6 +123,7 @@ func work(id int, jobs chan int, results chan int, wg *sync.WaitGroup) {
 		for i := 0; i < 3; i++ {
 			acc += (j*@A@ + @B@ + i) % 1009
 		}
+		acc += 10000 * len(strconv.Itoa(acc))
 		results <- acc
 	}
 }
@@ -387,9 +391,46 @@ func worker(id int, res []int, wg *sync.WaitGroup) {
 func main() {
 	res := make([]int, @N@)
 	var wg sync.WaitGroup
+	run := func(k int) {
+		worker(k, res, &wg)
+	}
+	k := 0
 	for id := 0; id < @N@; id++ {
 		wg.Add(1)
-		go worker(id, res, &wg)
+		k = id // one variable for all iterations: the go statement must pass its value at this point
+		go run(k) // a closure value: the goroutine branch of call that copies the arguments
+	}
+	wg.Wait()
+	for _, v := range res {
+		fmt.Println(v)
+	}
+}
+`,
+	// a function literal evaluated again and again while goroutines started from its earlier evaluations end:
+	// getFunc's wrapper writes the literal's frame slot back when a call ends (known finding, region
+	// getfunc-writeback): the next go statement may find a stale closure (captured base of an older
+	// iteration) or a nil function there (host crash)
+	tplGoLit: `package main
+
+import (
+	"fmt"
+	"sync"
+)
+
+func main() {
+	res := make([]int, @N@)
+	var wg sync.WaitGroup
+	for id := 0; id < @N@; id++ {
+		wg.Add(1)
+		base := id * @A@
+		go func(k int) {
+			defer wg.Done()
+			s := 0
+			for x := 0; x < @K@; x++ {
+				s += x + base
+			}
+			res[k] = s + @B@
+		}(id)
 	}
 	wg.Wait()
 	for _, v := range res {
@@ -670,6 +711,7 @@ func c08multi(j c08job) outcome {
 type c08race struct {
 	InInterp bool     `json:"in_interp"` // a stack frame of the report is inside github.com/traefik/yaegi/interp
 	Select   bool     `json:"select"`    // at least one of the two accesses is made by the exec closure of _select (incl. reflect.Select called from it)
+	GetFunc  bool     `json:"getfunc"`   // one access is the write-back of the literal's slot by getFunc's wrapper (getFunc.func1.1), the other is in getFunc's exec closure
 	Tops     []string `json:"tops"`      // first yaegi function of each access stack
 	Text     string   `json:"text,omitempty"`
 }
@@ -691,12 +733,13 @@ func parseRaces(stderr string) []c08race {
 		}
 		secs := strings.Split(strings.TrimSpace(body), "\n\n")
 		r := c08race{}
+		nWB, nGF := 0, 0
 		for _, sec := range secs {
 			fns := c08fnLine.FindAllStringSubmatch(sec, -1)
 			if len(fns) == 0 {
 				continue
 			}
-			top, inSel := "", false
+			top, inSel, inWB, inGF := "", false, false, false
 			for _, m := range fns {
 				fn := m[1]
 				if strings.Contains(fn, "github.com/traefik/yaegi/interp.") {
@@ -707,6 +750,11 @@ func parseRaces(stderr string) []c08race {
 					if strings.Contains(fn, "yaegi/interp._select.") {
 						inSel = true
 					}
+					if strings.HasSuffix(fn, "yaegi/interp.getFunc.func1.1") {
+						inWB = true
+					} else if strings.HasSuffix(fn, "yaegi/interp.getFunc.func1") {
+						inGF = true
+					}
 				}
 			}
 			if top == "" && len(fns) > 0 {
@@ -716,7 +764,13 @@ func parseRaces(stderr string) []c08race {
 			if inSel {
 				r.Select = true
 			}
+			if inWB {
+				nWB++
+			} else if inGF {
+				nGF++
+			}
 		}
+		r.GetFunc = nWB >= 1 && nWB+nGF >= 2 && !r.Select
 		if strings.Contains(part, "github.com/traefik/yaegi/interp.") {
 			r.InInterp = true
 		}
@@ -825,7 +879,13 @@ func c08runChild(bin string, j c08job, dir string) c08obs {
 	} else if ctx.Err() != nil {
 		o.Out = outcome{End: "timeout"}
 	} else {
-		o.Out = outcome{Stdout: so.String(), End: "host-crash:" + firstLine(fmt.Sprint(err)) + ":" + firstLine(se.String())}
+		msg := firstLine(se.String())
+		if i := strings.Index(se.String(), "panic: "); i >= 0 {
+			msg = firstLine(se.String()[i:]) // the child died from a panic in a goroutine (race reports may precede it)
+		} else if i := strings.Index(se.String(), "fatal error: "); i >= 0 {
+			msg = firstLine(se.String()[i:])
+		}
+		o.Out = outcome{Stdout: so.String(), End: "host-crash:" + firstLine(fmt.Sprint(err)) + ":" + msg}
 	}
 	o.Races = parseRaces(se.String())
 	return o
@@ -900,12 +960,15 @@ func runC08(args []string) error {
 		if p.Tpl == tplSelSendX {
 			j.Region = regionSendExpr
 		}
+		if p.Tpl == tplGoLit && p.N >= 2 {
+			j.Region = regionGetFunc
+		}
 		jobs = append(jobs, j)
 	}
 	mainTpls := []int{tplPipeline, tplFanout, tplMutex, tplProdCons, tplSelMain, tplClosure, tplHostCall, tplMulti, tplSelSend}
-	perTpl, plainExtra, regionJobs := 3, 2, 4
+	perTpl, plainExtra, regionJobs := 5, 2, 4
 	if thorough {
-		perTpl, plainExtra, regionJobs = 36, 24, 36
+		perTpl, plainExtra, regionJobs = 36, 8, 36
 	}
 	mkParams := func(tpl, n int) c08params {
 		p := c08params{Tpl: tpl, N: n, K: 6 + r.intn(20), A: 2 + r.intn(40), B: r.intn(500), Buf: []int{0, 0, 1, 3}[r.intn(4)]}
@@ -916,6 +979,11 @@ func runC08(args []string) error {
 			}
 		case tplSelPriv:
 			p.K = 20 + r.intn(30)
+		case tplGoLit:
+			if n > 1 {
+				p.N = 16 + r.intn(48) // iterations of the loop = goroutines started
+			}
+			p.K = 3 + r.intn(6)
 		case tplSelSend, tplSelSendX:
 			p.N = 1 + n%4
 			if p.Buf == 0 {
@@ -951,6 +1019,11 @@ func runC08(args []string) error {
 	// second known finding: the operand expression of a send clause
 	for k := 0; k < 2; k++ {
 		addJob(mkParams(tplSelSendX, 1+k), gmps[k%len(gmps)], yields[k%len(yields)], k == 0)
+	}
+	// third known finding: a function literal re-evaluated while its earlier instances end
+	for k := 0; k < regionJobs; k++ {
+		p := mkParams(tplGoLit, goroutines[(k+int(*seed))%len(goroutines)])
+		addJob(p, gmps[(k+2)%len(gmps)], []int{30, 50}[k%2], k%2 == 0)
 	}
 	// the same template with ONE worker: the statement is not shared; belongs to the main stream
 	addJob(mkParams(tplSelPriv, 1), 2, 5, true)
@@ -1042,26 +1115,30 @@ func runC08(args []string) error {
 		}
 		refInts, refOK := parseInts(ref.Stdout)
 		refOK = refOK && ref.End == "ok"
-		raceSel, raceOther := false, false
+		raceSel, raceGF, raceOther := false, false, false
 		for _, rc := range o.Races {
-			if rc.Select {
+			switch {
+			case rc.Select:
 				raceSel = true
-			} else {
+			case rc.GetFunc:
+				raceGF = true
+			default:
 				raceOther = true
 			}
 		}
+		crashNil := strings.HasPrefix(o.Out.End, "host-crash:") && strings.Contains(o.Out.End, "call of nil function")
 		crosstalk := false
 		if j.P.Tpl == tplSelPriv && implOK {
 			for k := 2; k < len(implInts); k += 3 {
-				if implInts[k] != 0 {
+				if implInts[k] != 0 || implInts[k-1] != int64(2*j.P.K) {
 					crosstalk = true
 				}
 			}
 		}
 		in := map[string]any{"template": c08TplName[j.P.Tpl], "params": j.P, "gomaxprocs": j.GMP, "yield_pct": j.YieldPct, "yield_seed": j.YieldSd, "race_build": j.Race, "kind": j.Kind}
 		sm.CaseIndex[fmt.Sprint(j.ID)] = map[string]any{"input": in, "sources": j.Sources}
-		cases = append(cases, fmt.Sprintf("(%d%%N, %s, %s, %s, %s, %s, %s, %s)", j.ID, j.P.coq(), coqBool(implOK), coqZList(implInts),
-			coqBool(raceSel), coqBool(raceOther), coqBool(refOK), coqZList(refInts)))
+		cases = append(cases, fmt.Sprintf("(%d%%N, %s, (mkobs %s %s %s %s %s %s), %s, %s)", j.ID, j.P.coq(), coqBool(implOK), coqZList(implInts),
+			coqBool(raceSel), coqBool(raceGF), coqBool(raceOther), coqBool(crashNil), coqBool(refOK), coqZList(refInts)))
 		sm.Evaluations++
 		sm.ImplComparisons++
 		sm.RefComparisons++
@@ -1080,6 +1157,15 @@ func runC08(args []string) error {
 		}
 		if raceOther {
 			sm.count("observed:race-elsewhere")
+		}
+		if raceGF {
+			sm.count("observed:race-getFunc-writeback")
+		}
+		if crashNil {
+			sm.count("observed:host-crash-call-of-nil-function")
+		}
+		if j.P.Tpl == tplGoLit && implOK && o.Out.String() != ref.String() {
+			sm.count("observed:stale-closure")
 		}
 		if crosstalk {
 			sm.count("observed:cross-talk")
